@@ -96,6 +96,18 @@ M = {
    "                        .filter(|path| path.is_file())\n", "", 'C15'),
  'c15-prune-top-level-only': ('src/fs.rs',
    "            .filter_entry(|e| !is_work_dir(e))", "            .filter_entry(|e| !(e.depth() <= 1 && is_work_dir(e)))", 'C15'),
+ 'c05-delete-after-script': ('src/engine/incremental/mod.rs',
+   "    storage::delete_saved_env_state(target).await?;\n\n    #[cfg(zinoma_verif)]\n    crate::verif::hooks::crash_point(\"deleted\", target);\n\n    let build_report = future.await?;\n",
+   "    #[cfg(zinoma_verif)]\n    crate::verif::hooks::crash_point(\"deleted\", target);\n\n    let build_report = future.await?;\n    storage::delete_saved_env_state(target).await?;\n", 'C05'),
+ 'c05-no-delete': ('src/engine/incremental/mod.rs',
+   "    storage::delete_saved_env_state(target).await?;\n\n    #[cfg(zinoma_verif)]\n    crate::verif::hooks::crash_point(\"deleted\", target);", "    #[cfg(zinoma_verif)]\n    crate::verif::hooks::crash_point(\"deleted\", target);", 'C05'),
+ 'c05-record-on-cancel': ('src/engine/incremental/mod.rs',
+   "        BuildTerminationReport::Cancelled => Ok(IncrementalRunResult::Cancelled),",
+   "        BuildTerminationReport::Cancelled => { if let Ok(Some(s)) = TargetEnvState::current(target_input, target_output).await { let _ = storage::save_env_state(target, s).await; } Ok(IncrementalRunResult::Cancelled) }", 'C05'),
+ 'c05-deserialize-from-file': ('src/engine/incremental/storage.rs',
+   "            bincode::deserialize(&bytes)", "            bincode::deserialize_from(&bytes[..])", 'C05?'),
+ 'c05-corrupt-not-dropped': ('src/engine/incremental/storage.rs',
+   "    result.ok()\n", "    Some(result.unwrap())\n", 'C05'),
 }
 
 def sh(cmd, **kw):
